@@ -1711,7 +1711,8 @@ MUTANTS = [
     Mutant('positive-number-allows-zero', VF, ", NotIn([0]))", ")", 'D6'),
     Mutant('number-range-length', VF, "Length(min=2, max=2)", "Length(min=2)", 'D6'),
     Mutant('list-of-type-allows-empty', VF, "            schema = Schema(All([given_type], Length(min=1)))", "            schema = Schema(All([given_type]))", 'D6'),
-    Mutant('percentage-sign', VF, "                if percent < 0:", "                if percent <= 0:", 'D6'),
+    Mutant('percentage-sign', VF, "                if not percent >= 0:", "                if not percent > 0:", 'D6'),
+    Mutant('percentage-nan-accepted (F8)', VF, "                if not percent >= 0:", "                if percent < 0:", 'D6'),
     Mutant('samples-domain', MH, "Required('samples', default=5): Positive(int),", "Required('samples', default=5): NonNegative(int),", 'D6'),
     Mutant('tolerance-domain', MH, "Any(PercentageString, NonNegative(Number)),\n        Required('samples'", "Any(PercentageString, Number),\n        Required('samples'", 'D6'),
     Mutant('dimension-domain', MSAM, "All(int, Range(2, float('inf')))", "All(int, Range(1, float('inf')))", 'D6'),
